@@ -51,7 +51,7 @@ def check_case(case) -> Result:
     if not isinstance(out, str):
         r.fail('returns a string', 'C18/type', got=type(out).__name__, **ctx)
         return r
-    if not kinds and not pep['intervals']:
+    if not kinds:
         if out != s:
             r.fail('an unmodified peptide is returned unchanged', 'C18/unmodified-changed', result=out, **ctx)
         return r
@@ -90,6 +90,18 @@ def check_case(case) -> Result:
         if abs(got - _shift_in_peptide(pep['unknown'], bool(pep['isotope']))) > 0.5 * 10 ** (-prec) + 1e-8:
             r.fail('unknown-position modifications keep their mass', 'C18/site/unknown', expected=_shift_in_peptide(pep['unknown'], bool(pep['isotope'])),
                    got=got, result=out, **ctx)
+    # what has no residue of its own stays where it was: unknown-position modifications stay unknown-position, every interval stays
+    # (with or without modifications), charge and adducts are carried over unchanged
+    if bool(pep['unknown']) != bool(obs['unknown']):
+        r.fail('shifts sit where the modifications were', 'C18/site/unknown-position-modifications-moved-or-lost', result=out, **ctx)
+    got_iv = sorted([iv[0], iv[1], bool(iv[2])] for iv in (obs['intervals'] or []))
+    exp_iv = sorted([a_, b_, bool(c_)] for a_, b_, c_, _m in pep['intervals'])
+    if got_iv != exp_iv:
+        r.fail('ambiguity intervals are kept', 'C18/intervals-changed', expected=exp_iv, got=got_iv, result=out, **ctx)
+    exp_add = model.expected(pep)['adducts']
+    if obs['charge'] != pep['charge'] or obs['adducts'] != exp_add:
+        r.fail('charge and adducts are carried over unchanged', 'C18/charge-or-adducts-changed', expected=[pep['charge'], exp_add],
+               got=[obs['charge'], obs['adducts']], result=out, **ctx)
     for f in ('labile', 'nterm', 'cterm', 'unknown'):
         for v, _m in (obs[f] or []):
             shifts += 1
@@ -153,9 +165,7 @@ def check_case(case) -> Result:
         r.fail('the mass equals the original mass to within the rounding precision times the number of shifts', sig, result=out,
                before=m_in, after=m_out, diff=diff, repeated=comps, repetition_amount=Q if comps else None, **ctx)
     # per-site shifts for inputs whose modifications all have a definite site
-    definite = not pep['unknown'] and not any(iv[3] for iv in pep['intervals']) and pep['charge'] is None and \
-        not any(_label_delta([L], refchem.WATER) for L in pep['isotope'])
-    if definite:
+    if True:  # residue, terminal and labile sites are definite whatever else the peptide carries
         E = model.expand_static(pep)
         internal = {i: ms for i, ms in E['internal']}
         oi = obs['internal'] or {}
@@ -169,6 +179,11 @@ def check_case(case) -> Result:
                 break
         for f in ('nterm', 'cterm', 'labile'):
             exp = _shift_in_peptide(E[f], bool(pep['isotope']))  # (E: static N-Term / C-Term rules written out on their terminus)
+            # a label also applies to the terminal H (N-terminus) and OH (C-terminus) of the peptide
+            if f == 'nterm':
+                exp += _label_delta(pep['isotope'], {'H': 1})
+            elif f == 'cterm':
+                exp += _label_delta(pep['isotope'], {'O': 1, 'H': 1})
             got = sum(v[1] * m for v, m in (obs[f] or []))
             if abs(got - exp) > 0.5 * 10 ** (-prec) + 1e-8:
                 r.fail('terminal and labile modifications become one numeric shift at the same place', f'C18/site/{f}', expected=exp, got=got,
